@@ -1,0 +1,233 @@
+//! Read-only verification hooks (cargo feature `verif_hooks`, off by default).
+//!
+//! Nothing in this module changes the behaviour of the crate. It only exposes copies of internal
+//! data structures and records events so that an external harness can compare the compiled
+//! automata and the scanner cache with a specification.
+
+use std::cell::RefCell;
+use std::sync::atomic::{AtomicBool, AtomicU64, Ordering};
+use std::sync::Mutex;
+
+use crate::internal::compiled_dfa::CompiledDfa;
+use crate::Scanner;
+
+/// A copy of a compiled automaton.
+#[derive(Debug, Clone, PartialEq, Eq)]
+pub struct AutomatonDump {
+    /// The patterns the automaton was compiled from (as stored for debugging purposes).
+    pub patterns: Vec<String>,
+    /// The number of states. State 0 is the start state.
+    pub n_states: usize,
+    /// The transitions (from state, character class id, to state).
+    pub transitions: Vec<(usize, usize, usize)>,
+    /// The accepting states (state, token type).
+    pub accepting: Vec<(usize, usize)>,
+    /// The token types in priority order.
+    pub terminal_ids: Vec<usize>,
+    /// The lookaheads (token type, is positive, automaton), sorted by token type.
+    pub lookaheads: Vec<(usize, bool, AutomatonDump)>,
+}
+
+/// A copy of a compiled scanner mode.
+#[derive(Debug, Clone, PartialEq, Eq)]
+pub struct ModeDump {
+    /// The name of the mode.
+    pub name: String,
+    /// The transitions (token type, target mode).
+    pub transitions: Vec<(usize, usize)>,
+    /// The automaton of the mode.
+    pub dfa: AutomatonDump,
+}
+
+/// A copy of the compiled data of a scanner.
+#[derive(Debug, Clone, PartialEq, Eq)]
+pub struct ScannerDump {
+    /// The registered character classes, printed ASTs in id order.
+    pub classes: Vec<String>,
+    /// The compiled modes.
+    pub modes: Vec<ModeDump>,
+}
+
+/// The bookkeeping state of an iterator.
+#[derive(Debug, Clone, PartialEq, Eq)]
+pub struct IterStateDump {
+    /// The offset of the char indices iterator in bytes.
+    pub offset: usize,
+    /// The last position of the char indices iterator.
+    pub last_position: usize,
+    /// The last iterated character.
+    pub last_char: char,
+    /// The recorded line start offsets.
+    pub line_offsets: Vec<usize>,
+}
+
+pub(crate) fn dump_automaton(dfa: &CompiledDfa) -> AutomatonDump {
+    let mut transitions = Vec::new();
+    for (from, state) in dfa.states.iter().enumerate() {
+        for (cc, to) in state.transitions.iter() {
+            transitions.push((from, cc.as_usize(), to.as_usize()));
+        }
+    }
+    let accepting = dfa
+        .end_states
+        .iter()
+        .enumerate()
+        .filter(|(_, (accepting, _))| *accepting)
+        .map(|(state, (_, terminal_id))| (state, terminal_id.as_usize()))
+        .collect();
+    let mut lookaheads: Vec<(usize, bool, AutomatonDump)> = dfa
+        .lookaheads
+        .iter()
+        .map(|(terminal_id, lookahead)| {
+            (
+                terminal_id.as_usize(),
+                lookahead.is_positive,
+                dump_automaton(&lookahead.nfa),
+            )
+        })
+        .collect();
+    lookaheads.sort_by_key(|l| l.0);
+    AutomatonDump {
+        patterns: dfa.patterns.clone(),
+        n_states: dfa.states.len(),
+        transitions,
+        accepting,
+        terminal_ids: dfa.terminal_ids.iter().map(|t| t.as_usize()).collect(),
+        lookaheads,
+    }
+}
+
+impl Scanner {
+    /// Returns a copy of the compiled data of the scanner.
+    pub fn verif_dump(&self) -> ScannerDump {
+        ScannerDump {
+            classes: self
+                .inner
+                .character_classes
+                .character_classes()
+                .iter()
+                .map(|cc| cc.ast().to_string())
+                .collect(),
+            modes: self
+                .inner
+                .scanner_modes
+                .iter()
+                .map(|mode| ModeDump {
+                    name: mode.name.clone(),
+                    transitions: mode
+                        .transitions
+                        .iter()
+                        .map(|(t, m)| (t.as_usize(), m.as_usize()))
+                        .collect(),
+                    dfa: dump_automaton(&mode.dfa),
+                })
+                .collect(),
+        }
+    }
+
+    /// Evaluates the registered character class `id` on the character `c`.
+    /// Returns `None` if no class with this id is registered.
+    pub fn verif_eval_class(&self, id: usize, c: char) -> Option<bool> {
+        if id < self.inner.character_classes.len() {
+            Some((self.inner.match_char_class)((id as u32).into(), c))
+        } else {
+            None
+        }
+    }
+}
+
+thread_local! {
+    static MINIMIZER_LOG: RefCell<Option<Vec<(AutomatonDump, Option<AutomatonDump>)>>> =
+        const { RefCell::new(None) };
+}
+
+/// Switches the recording of minimizer inputs and outputs on the current thread on or off.
+/// Switching it on clears the record.
+pub fn minimizer_recording(on: bool) {
+    MINIMIZER_LOG.with(|log| *log.borrow_mut() = if on { Some(Vec::new()) } else { None });
+}
+
+/// Takes the (input, output) pairs recorded on the current thread since the last call.
+pub fn take_minimizer_records() -> Vec<(AutomatonDump, Option<AutomatonDump>)> {
+    MINIMIZER_LOG.with(|log| {
+        log.borrow_mut()
+            .as_mut()
+            .map(std::mem::take)
+            .unwrap_or_default()
+    })
+}
+
+pub(crate) fn record_minimizer_input(dfa: &CompiledDfa) {
+    MINIMIZER_LOG.with(|log| {
+        if let Some(records) = log.borrow_mut().as_mut() {
+            records.push((dump_automaton(dfa), None));
+        }
+    });
+}
+
+pub(crate) fn record_minimizer_output(dfa: &CompiledDfa) {
+    MINIMIZER_LOG.with(|log| {
+        if let Some(records) = log.borrow_mut().as_mut() {
+            if let Some(last) = records.iter_mut().rev().find(|r| r.1.is_none()) {
+                last.1 = Some(dump_automaton(dfa));
+            }
+        }
+    });
+}
+
+/// An event of the scanner cache. All events are emitted inside `ScannerCache::get`, i.e. while
+/// the lock of the cache is held, and are numbered by a counter incremented there.
+#[derive(Debug, Clone, PartialEq, Eq)]
+pub struct CacheEvent {
+    /// The sequence number of the event.
+    pub seq: u64,
+    /// The id of the thread that emitted the event.
+    pub thread: String,
+    /// The kind of the event: `enter`, `hit`, `miss`, `insert` or `exit`.
+    pub kind: &'static str,
+    /// A fingerprint (`Debug` output) of the requested scanner modes.
+    pub key: String,
+    /// The number of entries of the cache when the event was emitted.
+    pub entries: usize,
+}
+
+static CACHE_EVENTS_ON: AtomicBool = AtomicBool::new(false);
+static CACHE_SEQ: AtomicU64 = AtomicU64::new(0);
+static CACHE_EVENTS: Mutex<Vec<CacheEvent>> = Mutex::new(Vec::new());
+
+/// Switches the recording of cache events on or off. Switching it on clears the record.
+pub fn cache_events(on: bool) {
+    if on {
+        CACHE_EVENTS.lock().unwrap().clear();
+    }
+    CACHE_EVENTS_ON.store(on, Ordering::SeqCst);
+}
+
+/// Takes the cache events recorded since the last call.
+pub fn take_cache_events() -> Vec<CacheEvent> {
+    std::mem::take(&mut *CACHE_EVENTS.lock().unwrap())
+}
+
+pub(crate) fn cache_event(kind: &'static str, modes: &[crate::ScannerMode], entries: usize) {
+    if CACHE_EVENTS_ON.load(Ordering::SeqCst) {
+        let seq = CACHE_SEQ.fetch_add(1, Ordering::SeqCst);
+        CACHE_EVENTS.lock().unwrap().push(CacheEvent {
+            seq,
+            thread: format!("{:?}", std::thread::current().id()),
+            kind,
+            key: format!("{:?}", modes),
+            entries,
+        });
+    }
+}
+
+/// Emits the `exit` event of a cache access when dropped.
+pub(crate) struct CacheSection<'a> {
+    pub(crate) modes: &'a [crate::ScannerMode],
+}
+
+impl Drop for CacheSection<'_> {
+    fn drop(&mut self) {
+        cache_event("exit", self.modes, usize::MAX);
+    }
+}
